@@ -32,6 +32,7 @@ func (q *priorityQueue[T]) Add(data T, priority int, configs ...JobConfigFunc) (
 
 	// must precede Enqueue: once visible, the job may already be Processing or Closed
 	j.changeStatus(queued)
+	vhook("add.pre", j)
 	if ok := q.internalQueue.Enqueue(j, priority); !ok {
 		vhook("add.enq", j, false)
 		j.Close()
@@ -53,6 +54,7 @@ func (q *priorityQueue[T]) AddAll(items []Item[T]) EnqueuedGroupJob {
 
 		// must precede Enqueue: once visible, the job may already be Processing or Closed
 		j.changeStatus(queued)
+		vhook("add.pre", j)
 		if ok := q.internalQueue.Enqueue(j, item.Priority); !ok {
 			vhook("add.enq", j, false)
 			j.Close()
@@ -98,6 +100,7 @@ func (q *resultPriorityQueue[T, R]) Add(data T, priority int, configs ...JobConf
 
 	// must precede Enqueue: once visible, the job may already be Processing or Closed
 	j.changeStatus(queued)
+	vhook("add.pre", j)
 	if ok := q.internalQueue.Enqueue(j, priority); !ok {
 		vhook("add.enq", j, false)
 		j.Close()
@@ -119,6 +122,7 @@ func (q *resultPriorityQueue[T, R]) AddAll(items []Item[T]) EnqueuedResultGroupJ
 
 		// must precede Enqueue: once visible, the job may already be Processing or Closed
 		j.changeStatus(queued)
+		vhook("add.pre", j)
 		if ok := q.internalQueue.Enqueue(j, item.Priority); !ok {
 			vhook("add.enq", j, false)
 			j.Close()
@@ -164,6 +168,7 @@ func (q *errorPriorityQueue[T]) Add(data T, priority int, configs ...JobConfigFu
 
 	// must precede Enqueue: once visible, the job may already be Processing or Closed
 	j.changeStatus(queued)
+	vhook("add.pre", j)
 	if ok := q.internalQueue.Enqueue(j, priority); !ok {
 		vhook("add.enq", j, false)
 		j.Close()
@@ -185,6 +190,7 @@ func (q *errorPriorityQueue[T]) AddAll(items []Item[T]) EnqueuedErrGroupJob {
 
 		// must precede Enqueue: once visible, the job may already be Processing or Closed
 		j.changeStatus(queued)
+		vhook("add.pre", j)
 		if ok := q.internalQueue.Enqueue(j, item.Priority); !ok {
 			vhook("add.enq", j, false)
 			j.Close()
